@@ -392,10 +392,12 @@ def check(tier: str, replay: Optional[str] = None) -> int:
     hstates = 0
     cfgs: List[Dict[str, Any]] = []
     if not (case and case.get("machine") == "Compare"):
-        for (name, types, names, cpkeys) in hl.TEMPLATES["quick"] if tier == "quick" else hl.TEMPLATES["thorough"]:
+        for (name, types, names, cpkeys, rev) in hl.templates(tier):
             if tier == "quick" and name not in ("chain", "two_names", "comparams"):
                 continue
-            r2, c2 = hl.run_model(name, types, names, cpkeys)
+            if tier == "thorough" and name in ("two_groups", "shared_chain", "two_names_rev", "comparams_rev"):
+                continue
+            r2, c2 = hl.run_model(name, types, names, cpkeys, rev)
             design[name] = {"distinct": r2.distinct, "configurations": len(c2)}
             hstates += r2.distinct
             cfgs += c2
